@@ -660,3 +660,250 @@ func tablesEquivalent(got, want []string) (bool, string) {
 	}
 	return true, ""
 }
+
+// ---------------------------------------------------------------- decoders written as a table lookup
+
+// lookupLoopTable: dec is `for i := range T { if T[i].k == param { return T[i].v } }; return d` over a package-level
+// table T of {key, value} pairs that is only written by its initialiser. Returns the equivalent decision table
+// (param == key_j -> value_j; otherwise d). The table is read from the stores of the package initialiser.
+func (c *Ctx) lookupLoopTable(dec *ssa.Function) (*dtable, bool) {
+	if len(dec.Params) == 0 || len(dec.Blocks) == 0 {
+		return nil, false
+	}
+	loops := naturalLoops(dec)
+	if len(loops) != 1 {
+		return nil, false
+	}
+	l := loops[0]
+	var g *ssa.Global
+	var keyField, valField = -1, -1
+	var param *ssa.Parameter
+	// the comparison and the return of the matching element
+	for b := range l.Blocks {
+		iff, ok := b.Instrs[len(b.Instrs)-1].(*ssa.If)
+		if !ok {
+			continue
+		}
+		bo, ok := iff.Cond.(*ssa.BinOp)
+		if !ok || bo.Op != token.EQL {
+			continue
+		}
+		var elemLoad *ssa.UnOp
+		var prm *ssa.Parameter
+		for _, pair := range [][2]ssa.Value{{bo.X, bo.Y}, {bo.Y, bo.X}} {
+			if ld, ok := pair[0].(*ssa.UnOp); ok && ld.Op == token.MUL {
+				if pa, ok := pair[1].(*ssa.Parameter); ok {
+					elemLoad, prm = ld, pa
+				}
+			}
+		}
+		if elemLoad == nil {
+			continue
+		}
+		fa, ok := elemLoad.X.(*ssa.FieldAddr)
+		if !ok {
+			continue
+		}
+		ia, ok := fa.X.(*ssa.IndexAddr)
+		if !ok {
+			continue
+		}
+		gl, ok := ia.X.(*ssa.Global)
+		if !ok {
+			continue
+		}
+		if _, isR := rangeIndexConst(ia.Index); !isR && rangeIndexSeq(ia.Index) == nil {
+			continue
+		}
+		// the true edge returns the value field of the same element
+		tb := b.Succs[0]
+		ret, ok := tb.Instrs[len(tb.Instrs)-1].(*ssa.Return)
+		if !ok || len(ret.Results) != 1 {
+			continue
+		}
+		vld, ok := ret.Results[0].(*ssa.UnOp)
+		if !ok {
+			continue
+		}
+		vfa, ok := vld.X.(*ssa.FieldAddr)
+		if !ok {
+			continue
+		}
+		via, ok := vfa.X.(*ssa.IndexAddr)
+		if !ok || via.X != ssa.Value(gl) || via.Index != ia.Index {
+			continue
+		}
+		g, keyField, valField, param = gl, fa.Field, vfa.Field, prm
+	}
+	if g == nil {
+		return nil, false
+	}
+	// every other return of dec is one constant (the default), after the loop
+	var def *ssa.Const
+	for _, b := range dec.Blocks {
+		ret, ok := b.Instrs[len(b.Instrs)-1].(*ssa.Return)
+		if !ok {
+			continue
+		}
+		if k, isC := ret.Results[0].(*ssa.Const); isC {
+			if def != nil && constKey(def) != constKey(k) {
+				return nil, false
+			}
+			def = k
+		}
+	}
+	if def == nil {
+		return nil, false
+	}
+	// the table is written only by the package initialiser, with constants
+	keys := map[int64]*ssa.Const{}
+	vals := map[int64]*ssa.Const{}
+	record := func(k int64, field int, cv *ssa.Const) {
+		switch field {
+		case keyField:
+			keys[k] = cv
+		case valField:
+			vals[k] = cv
+		}
+	}
+	// fieldsOfStructLit: the constant field stores of a local struct literal
+	fieldsOfStructLit := func(al *ssa.Alloc, k int64) bool {
+		for _, r := range *al.Referrers() {
+			fa, ok := r.(*ssa.FieldAddr)
+			if !ok {
+				continue
+			}
+			for _, r2 := range *fa.Referrers() {
+				if st, ok := r2.(*ssa.Store); ok && st.Addr == ssa.Value(fa) {
+					cv, isC := st.Val.(*ssa.Const)
+					if !isC {
+						return false
+					}
+					record(k, fa.Field, cv)
+				}
+			}
+		}
+		return true
+	}
+	// elementsOfArrayLit: arr[k] = <struct literal> / arr[k].f = const
+	elementsOfArrayLit := func(arr ssa.Value) bool {
+		refs := arr.Referrers()
+		if refs == nil {
+			return false
+		}
+		for _, r := range *refs {
+			ia, ok := r.(*ssa.IndexAddr)
+			if !ok {
+				continue
+			}
+			k, isK := constInt(ia.Index)
+			for _, r2 := range *ia.Referrers() {
+				switch u := r2.(type) {
+				case *ssa.Store:
+					if u.Addr != ssa.Value(ia) {
+						continue
+					}
+					if !isK {
+						return false
+					}
+					ld, ok := u.Val.(*ssa.UnOp)
+					if !ok {
+						return false
+					}
+					sl, ok := ld.X.(*ssa.Alloc)
+					if !ok || !fieldsOfStructLit(sl, k) {
+						return false
+					}
+				case *ssa.FieldAddr:
+					for _, r3 := range *u.Referrers() {
+						if st, ok := r3.(*ssa.Store); ok && st.Addr == ssa.Value(u) {
+							cv, isC := st.Val.(*ssa.Const)
+							if !isC || !isK {
+								return false
+							}
+							record(k, u.Field, cv)
+						}
+					}
+				}
+			}
+		}
+		return true
+	}
+	nWhole := 0
+	inPlace := false
+	fnsToScan := append([]*ssa.Function{}, c.P.ModFns...)
+	if g.Pkg != nil {
+		if initFn := g.Pkg.Func("init"); initFn != nil {
+			fnsToScan = append(fnsToScan, initFn)
+		}
+	}
+	scanned := map[*ssa.Function]bool{}
+	for _, fn := range fnsToScan {
+		if scanned[fn] {
+			continue
+		}
+		scanned[fn] = true
+		for _, b := range fn.Blocks {
+			for _, in := range b.Instrs {
+				st, ok := in.(*ssa.Store)
+				if !ok || (st.Addr != ssa.Value(g) && addrRoot(st.Addr) != ssa.Value(g)) {
+					continue
+				}
+				if fn.Name() != "init" {
+					return nil, false // written outside the initialiser
+				}
+				// built in place: staticTable[k].f = const
+				if fa, isFA := st.Addr.(*ssa.FieldAddr); isFA {
+					if ia, isIA := fa.X.(*ssa.IndexAddr); isIA && ia.X == ssa.Value(g) {
+						k, isK := constInt(ia.Index)
+						cv, isC := st.Val.(*ssa.Const)
+						if !isK || !isC {
+							return nil, false
+						}
+						record(k, fa.Field, cv)
+						inPlace = true
+						continue
+					}
+				}
+				if st.Addr == ssa.Value(g) {
+					// the whole table assigned from a local literal
+					ld, ok := st.Val.(*ssa.UnOp)
+					if !ok {
+						return nil, false
+					}
+					arr, ok := ld.X.(*ssa.Alloc)
+					if !ok || !elementsOfArrayLit(arr) {
+						return nil, false
+					}
+					nWhole++
+				}
+			}
+		}
+	}
+	if !(nWhole == 1 && !inPlace) && !(nWhole == 0 && inPlace) {
+		return nil, false
+	}
+	if len(keys) == 0 || len(keys) != len(vals) {
+		return nil, false
+	}
+	t := &dtable{fn: dec}
+	var negs []atom
+	var idx []int64
+	for k := range keys {
+		idx = append(idx, k)
+	}
+	sort.Slice(idx, func(i, j int) bool { return idx[i] < idx[j] })
+	seen := map[string]bool{}
+	for _, k := range idx {
+		kk := constKey(keys[k])
+		if seen[kk] {
+			continue // a later duplicate key is never reached
+		}
+		seen[kk] = true
+		conds := append(append([]atom{}, negs...), atom{subj: param.Name(), op: "==", konst: kk})
+		t.rows = append(t.rows, trow{conds: conds, results: []string{"const:" + constKey(vals[k])}, vals: []ssa.Value{vals[k]}})
+		negs = append(negs, atom{subj: param.Name(), op: "==", konst: kk, neg: true})
+	}
+	t.rows = append(t.rows, trow{conds: negs, results: []string{"const:" + constKey(def)}, vals: []ssa.Value{def}})
+	return t, true
+}
